@@ -316,7 +316,7 @@ func initialAndChunking(c *Ctx, rule string) {
 			for _, b := range f.Blocks {
 				for _, in := range b.Instrs {
 					if st, ok := in.(*ssa.Store); ok {
-						if fv := fieldVar(st.Addr); fv != nil && fv.Name() == "ts_ms" {
+						if fv := fieldVar(st.Addr); p.isRoleField(fv, "drivers.Reader", "ts_ms") {
 							if add, ok := st.Val.(*ssa.BinOp); ok && add.Op.String() == "+" {
 								okAdd++
 							}
@@ -381,7 +381,7 @@ func initialAndChunking(c *Ctx, rule string) {
 					nIf++
 				case *ssa.Store:
 					if _, local := x.Addr.(*ssa.Alloc); !local {
-						if fv := fieldVar(x.Addr); fv == nil || fv.Name() != "ts_ms" {
+						if fv := fieldVar(x.Addr); !p.isRoleField(fv, "drivers.Reader", "ts_ms") {
 							extra = "EachMessage stores to decoder state outside the step function"
 						}
 					}
@@ -404,7 +404,7 @@ func initialAndChunking(c *Ctx, rule string) {
 									switch y := gi.(type) {
 									case *ssa.Store:
 										if _, local := y.Addr.(*ssa.Alloc); !local {
-											if fv := fieldVar(y.Addr); fv == nil || fv.Name() != "ts_ms" {
+											if fv := fieldVar(y.Addr); !p.isRoleField(fv, "drivers.Reader", "ts_ms") {
 												onlyClock = false
 											}
 										}
@@ -436,7 +436,7 @@ func initialAndChunking(c *Ctx, rule string) {
 
 func loopbackRule(c *Ctx, rule string) {
 	p := c.P
-	tout := p.namedType("drivers/testdrv", "out")
+	tout := p.roleT("drivers/testdrv.out")
 	if tout == nil {
 		c.Unk(rule, "testdrv out port", "-", "not found")
 		return
